@@ -20,7 +20,7 @@ func init() {
 		ID:        "C20",
 		Title:     "Applications are independent and deterministic",
 		Technique: "Go race detector over concurrently built-and-run applications + outcome-equality monitor (concurrent vs solo, permuted sequential order, rebuild)",
-		Rule: "a case is a round over a pool of 120 (program, command line) pairs (generator of C01 incl. spec-level -- and env-backed options; environment fixed before any goroutine starts): " +
+		Rule: "a case is a round over a pool of 120 (program, command line) pairs (generator of C01 incl. spec-level -- and env-backed options, a third of them declared with the built-in typed variables so that value conversions can fail; environment fixed before any goroutine starts): " +
 			"(a) every pair is built and run solo and its outcome (acceptance + every bound value) recorded; (c) built and run a second time: same outcome; " +
 			"(b) the pool is run sequentially in random permutations in the same process: every outcome equal to solo; (d) 2-4 applications are all declared first and then run in a random order: every outcome equal to solo; (a') 16 goroutines each build and run randomly drawn pairs concurrently, under the race detector: " +
 			"every outcome equal to solo and no data race reported (race reports are collected from the detector's log, deduplicated by the top frames). The evidence reports how many runs overlapped (in-flight counter sampled at Run entry). " +
@@ -38,9 +38,10 @@ func init() {
 }
 
 type c20Pair struct {
-	p    *Prog
-	argv []string
-	solo string
+	p     *Prog
+	argv  []string
+	solo  string
+	typed bool // declared with the built-in typed variables (Bool/Int/Ints/String/Strings): conversions can fail
 }
 
 func runC20(c *core.Ctx) {
@@ -50,17 +51,27 @@ func runC20(c *core.Ctx) {
 	for len(pool) < c20Pool {
 		cfg := variantCfg(len(pool)%4, c.Tier)
 		p := gen.GenProg(c.R, cfg)
+		typed := len(pool)%3 == 2
+		if typed {
+			for _, o := range p.Opts {
+				o.Int = !o.Flag && c.R.Intn(2) == 0
+			}
+			for _, a := range p.Args {
+				a.Int = c.R.Intn(2) == 0
+			}
+		}
 		for k := 0; k < 4; k++ {
 			argv := gen.Argv(c.R, p, cfg)
 			if hasHelp(argv) {
 				continue
 			}
-			pool = append(pool, c20Pair{p: p, argv: argv})
+			pool = append(pool, c20Pair{p: p, argv: argv, typed: typed})
 		}
 	}
 	run := func(pr c20Pair) string {
 		app := drive.Single(pr.p)
 		app.Shared = true
+		app.Builtin = pr.typed
 		return drive.OutcomeKey(pr.p, drive.Run(app, pr.argv))
 	}
 	c.Journal(map[string]interface{}{"round": c.Index, "pool": len(pool), "first_spec": pool[0].p.Spec, "first_argv": pool[0].argv})
@@ -98,6 +109,7 @@ func runC20(c *core.Ctx) {
 			pr := pool[c.R.Intn(len(pool))]
 			app := drive.Single(pr.p)
 			app.Shared = true
+			app.Builtin = pr.typed
 			built = append(built, drive.Build(app))
 			prs = append(prs, pr)
 		}
